@@ -281,14 +281,17 @@ def r6_outside_is_transparent(ck, P):
                 for z in f.users(y):
                     if z.op == 'phi':
                         work.append(z)
-                    elif z.op in ('or', 'add') and not any(o[0] == 'c' for o in z.a):
+                    elif z.op in ('or', 'add'):
                         other = [o for o in z.a if o != ['v', y.i]]
-                        if other and not from_fetch(other[0]):
+                        if other and other[0][0] == 'c':
+                            if int(other[0][1]) != 0:
+                                bad = z                      # 0 | constant: the outside sample is no longer 0
+                        elif other and not from_fetch(other[0]):
                             bad = z
             where = '%s: %s = phi (0, fetched pixels)' % (f.name, x.dv or 'value %d' % x.i)
             if bad is None:
                 ck.ok(R, where)
             else:
-                ck.violation(R, f.name, 'bits or-ed into the merged sample', '%s combines the merged sample (0 when outside a non-repeating image) with a run-time mask at %s: for alpha-less formats the outside becomes opaque black instead of transparent, so an opaque picture presented as x8r8g8b8 composites differently from the same picture as a8r8g8b8 with alpha 255' % (f.name, bad.loc()), bad.loc())
+                ck.violation(R, f.name, 'bits or-ed into the merged sample', '%s combines the merged sample (0 when outside a non-repeating image) with further bits at %s: for alpha-less formats the outside becomes opaque black instead of transparent, so an opaque picture presented as x8r8g8b8 composites differently from the same picture as a8r8g8b8 with alpha 255' % (f.name, bad.loc()), bad.loc())
     if n == 0:
         ck.incomplete(R, 'no fetcher substitutes 0 for outside samples')
